@@ -111,7 +111,12 @@ def plan_cases(ctx):
     for k in range(n + n // 7):
         if k >= n:
             # directed: multi-frame LZX folders with tiny input buffers (the frame-size / refill order matters there)
-            if k % 2:
+            if k % 3 == 0:
+                try:
+                    case = lzx_e8_beyond_window(rng, rng.choice([15, 16]))
+                except Exception as e:
+                    C.log(f"C01: lzx_e8_beyond_window failed: {e!r}"); continue
+            elif k % 2:
                 case = S.vgen_case(rng, "cab", "medium", comp=3, folders=1, parts=1, embed=False)
             else:
                 case = lzx_uncompressed_two_frames(rng, rng.choice([40000, 32768 + 2, 65536 + 100]))
@@ -152,6 +157,28 @@ def lzx_uncompressed_two_frames(rng, n=40000, wb=15):
     c = cab.build_cab([{"comp": 3 | wb << 8, "blocks": blocks}], [f])
     return {"kind": "cab", "files": {"d1.cab": c}, "members": [dict(f, data=data)],
             "meta": {"open": "open", "order": ["d1.cab"], "quirks": ["lzx-last-frame-buffer:folder0"], "directed": "lzx-uncompressed-two-frames"}}
+
+def lzx_e8_beyond_window(rng, wb=15, nwin=3):
+    """one LZX folder several windows long with Intel E8 translation on and call sites in every frame (the translation
+    works with the position in the *stream*, which differs from the position in the window once the window has wrapped)"""
+    import struct
+    from vgen import lzx, cab, lz
+    n = nwin * (1 << wb) + 5000
+    body = bytearray(rng.choice(b"abcdefgh \n") for _ in range(n))
+    for p in range(50, n - 10, 197):
+        body[p] = 0xE8
+        struct.pack_into("<i", body, p + 1, rng.choice([0x1388, 0x10, 70000, -50, 0x20000, 5, -(p // 2), n - 100]))
+    data = bytes(body)
+    filesize = rng.choice([n, 0x00100000, 0x7FFFFFFF])
+    raw = lzx.e8_encode(data, filesize)
+    toks = lz.greedy_tokens(raw, lzx.max_offset(wb), 2, 257, frame=32768, rng=rng)
+    frames, total, info = lzx.lzx_frames(toks, wb, intel_filesize=filesize, rng=rng)
+    blocks = [(f, min(32768, total - 32768 * i)) for i, f in enumerate(frames)]
+    cuts = [0, 100, (1 << wb) - 7, (1 << wb) + 33000, n]
+    files = [dict(name=b"p%d.dll" % i, length=cuts[i + 1] - cuts[i], offset=cuts[i], folder=0, attribs=0x20, date=(2001, 2, 3), time=(4, 5, 6)) for i in range(4)]
+    c = cab.build_cab([{"comp": 3 | wb << 8, "blocks": blocks}], files)
+    return {"kind": "cab", "files": {"d1.cab": c}, "members": [dict(f, data=data[f["offset"]:f["offset"] + f["length"]]) for f in files],
+            "meta": {"open": "open", "order": ["d1.cab"], "quirks": [], "directed": "lzx-e8-beyond-window"}}
 
 def file_lines_of(block):
     return [C.kv(l) for l in block[1:] if l.startswith("file ")]
